@@ -191,12 +191,19 @@ impl Exec {
                 }
                 Ok(Out::Walk(items))
             }
-            Op::WalkAfter { p, muts } => {
-                let it = self.path(p).map_err(v)?.walk_dir().map_err(v)?;
+            Op::WalkAfter { p, muts, after } => {
+                let mut it = self.path(p).map_err(v)?.walk_dir().map_err(v)?;
+                let mut items = vec![];
+                for _ in 0..*after {
+                    match it.next() {
+                        Some(Ok(c)) => items.push(Ok(c.as_str().to_string())),
+                        Some(Err(e)) => items.push(Err(err_info(&e))),
+                        None => break,
+                    }
+                }
                 for m in muts {
                     let _ = self.exec_inner(m);
                 }
-                let mut items = vec![];
                 for x in it {
                     match x {
                         Ok(c) => items.push(Ok(c.as_str().to_string())),
